@@ -174,8 +174,8 @@ def judge_common(ctx, prop, progres, stress_runs, races, free_runs=()):
     if prop == 'C05':
         # histories that did not run to completion: are the calls left behind rightly blocked?
         stuck_items = [it for it in items if not qe.complete(it[2]) and it[3]]
-        for key, off in (qe.validate_histories(ctx, [it for it in stuck_items if it[0][0] == 'sched'], 's') +
-                         qe.validate_histories(ctx, [it for it in stuck_items if it[0][0] != 'sched'], 't')):
+        byprog = lambda it: (it[0][0], it[0][1] if it[0][0] != 'stress' else '')
+        for key, off in qe.validate_histories(ctx, stuck_items, 's', group=byprog):
             prog, sched, r = meta[key]
             hist = r['history']
             if off < len(hist):
@@ -191,8 +191,8 @@ def judge_common(ctx, prop, progres, stress_runs, races, free_runs=()):
         # every history, also those that did not run to completion: a history that is
         # wrong before its end (a panic, a wrong result) is a matter of C04; one that is
         # only rejected at its end (calls left waiting) is a matter of C05
-        rejected = (qe.validate_histories(ctx, [it for it in items if it[0][0] == 'sched'], 'h') +
-                    qe.validate_histories(ctx, [it for it in items if it[0][0] != 'sched'], 'g'))
+        byprog = lambda it: (it[0][0], it[0][1] if it[0][0] != 'stress' else '')
+        rejected = qe.validate_histories(ctx, items, 'h', group=byprog)
         for key, off in rejected:
             prog, sched, r = meta[key]
             hist = r['history']
